@@ -179,6 +179,13 @@ class MapGen:
         swnm = [self.sid(self.rand_text()) if rng.random() < dens else 0 for _ in range(256)]
         if self.opts.get("swnm_empty_ref"):
             swnm[3] = self.sid("")
+        if self.opts.get("header_ptr"):
+            # make sure the empty text is referenced (a location name); it gets the last id holding it
+            anywhere = self.texts.index("Anywhere") + 1 if "Anywhere" in self.texts else -1
+            for l in locs:
+                if any(l.values()) and l["_string_id"] != anywhere:
+                    l["_string_id"] = self.sid("")
+                    break
         wavs = [self.sid("staredit\\wav\\" + self.rand_text() + ".wav") if rng.random() < 0.02 else 0 for _ in range(512)]
         self.wav_sids = [w for w in wavs if w]
         # unit settings
@@ -244,13 +251,30 @@ class MapGen:
         extra_ids = rng.choice([0, 0, 3]) if wild else 0     # more ids sharing text 1 / pointing to ""
         base = 2 + 2 * (n + extra_ids)
         data, offs, pos = b"", [], 0
-        for t in texts:
-            offs.append(base + pos)
-            b = t.encode("ascii") + b"\0"
+        # layout options (all legal: an offset may point anywhere in the section):
+        #   interior_ids  - a text is stored as the tail of a longer string and its id points INSIDE that string; when the
+        #                   same text also has a later id of its own (sid() stores some texts twice) this is the shape
+        #                   "suffix pointer first, stand-alone twin later, references use the later id"
+        #   header_ptr    - the LAST id holding the empty text points at the high byte of the string count (0 while there
+        #                   are fewer than 256 ids): an offset into the header, below the string data
+        interior = self.opts.get("interior_ids", 0.0)
+        seen = set()
+        for k, t in enumerate(texts):
+            first_of_twins = t in texts[k + 1:] and t not in seen
+            seen.add(t)
+            if t and interior and (first_of_twins or rng.random() < interior * 0.3):
+                prefix = "".join(chr(rng.randrange(65, 91)) for _ in range(rng.choice([1, 4, 9])))
+                offs.append(base + pos + len(prefix))
+                b = (prefix + t).encode("ascii") + b"\0"
+            else:
+                offs.append(base + pos)
+                b = t.encode("ascii") + b"\0"
             data += b
             pos += len(b)
         for _ in range(extra_ids):
             offs.append(offs[0])
+        if self.opts.get("header_ptr") and n + extra_ids < 256 and "" in texts:
+            offs[len(texts) - 1 - texts[::-1].index("")] = 1
         return struct.pack("H", n + extra_ids) + b"".join(struct.pack("H", o) for o in offs) + data
 
     def action(self, kind=None):
